@@ -211,7 +211,7 @@ func sameSignedContent(orig, mut []byte, chainID string) (bool, string) {
 
 func checkC16(r *ev.Run) {
 	nScripts := r.N(8, 100)
-	r.Rule("case = a freshly signed, valid transaction T (send, DAO transfer, DAO burn, parameter change, application edit-stake, node unjail attempt) delivered once, followed by a second delivery that is either the identical bytes or one of 6 semantics-preserving re-encodings of the length-prefixed protobuf (non-minimal length prefix, appended unknown field, duplicated scalar field, reversed field order, non-minimal inner varint, non-minimal nested length), placed in the same block (right after T, or after other txs) or in a later block (1-3 blocks later, after the driver indexed T as Tendermint does). Each re-encoding is first checked, with the application's own decoder, to carry the same sign bytes, signature and public key and to verify. Oracle (per-tx pre/post snapshots): the second delivery must be rejected and leave every store digest unchanged. Post-upgrade (protobuf) codec with all features active; the legacy amino era (heights 1-2 of the bootstrap) is not exercised. Additionally two kinds whose FIRST delivery passes the ante handler (the fee is taken) and then fails in its message handler (send beyond the balance, unjail of a node that is not jailed): the identical bytes delivered again, in the same block or later, must be rejected without taking a second fee. Non-trivial = the first delivery took effect (accepted, or fee taken); distinct = (message kind, class, placement).")
+	r.Rule("case = a freshly signed, valid transaction T (send, DAO transfer, DAO burn, parameter change, application edit-stake, node unjail attempt) delivered once, followed by a second delivery that is either the identical bytes or one of 6 semantics-preserving re-encodings of the length-prefixed protobuf (non-minimal length prefix, appended unknown field, duplicated scalar field, reversed field order, non-minimal inner varint, non-minimal nested length), placed in the same block (right after T, or after other txs) or in a later block (1-3 blocks later, after the driver indexed T's block as Tendermint does: one batch per block; in every other pair T's block also holds a transaction the ante handler rejects, before or after T). Each re-encoding is first checked, with the application's own decoder, to carry the same sign bytes, signature and public key and to verify. Oracle (per-tx pre/post snapshots): the second delivery must be rejected and leave every store digest unchanged. Post-upgrade (protobuf) codec with all features active; the legacy amino era (heights 1-2 of the bootstrap) is not exercised. Additionally two kinds whose FIRST delivery passes the ante handler (the fee is taken) and then fails in its message handler (send beyond the balance, unjail of a node that is not jailed): the identical bytes delivered again, in the same block or later, must be rejected without taking a second fee. Non-trivial = the first delivery took effect (accepted, or fee taken); distinct = (message kind, class, placement).")
 	r.Assume("the driver indexes a block's transactions after Commit and before the next block, like Tendermint's indexer service")
 	ev.ForEach(nScripts, workers(), func(si int) {
 		if r.Only != "" && r.Only != "*" && r.Only != fmt.Sprint(si) {
@@ -275,7 +275,23 @@ func checkC16(r *ev.Run) {
 				place := places[(ci+si+len(kind))%len(places)]
 				msg, signer := mk(kind)
 				p.B.Begin(60)
+				// every other pair shares T's block with a transaction the ante handler rejects (wrong key, or fee too low): Tendermint hands the whole block's results to the indexer in one batch
+				anteFail := func() {
+					if (ci+ki)%3 == 0 { // signed by a key that is not the sender's
+						p.add("filler-ante-rejected", chain.MsgSend(chain.Addr(chain.KeyAcct0+3), chain.Addr(chain.KeyAcct0+4), int64(1+rr.Intn(1000))), chain.KeyAcct0+8, nil, map[string]string{"role": "filler"})
+						return
+					}
+					// correctly signed, fee below the required one
+					p.add("filler-ante-rejected", chain.MsgSend(chain.Addr(chain.KeyAcct0+3), chain.Addr(chain.KeyAcct0+4), int64(1+rr.Intn(1000))), chain.KeyAcct0+3, func(o *chain.TxOpts) { o.Fee = 1 }, map[string]string{"role": "filler"})
+				}
+				withRejected := (ci+ki+si)%2 == 0
+				if withRejected && (ci+si)%4 < 2 {
+					anteFail()
+				}
 				first := p.add(kind, msg, signer, nil, map[string]string{"role": "first"})
+				if withRejected && (ci+si)%4 >= 2 {
+					anteFail()
+				}
 				var mut []byte
 				applicable, why := true, ""
 				if class == "identical-bytes" {
